@@ -1,19 +1,15 @@
 #!/bin/bash
-# usage: tools/seed_eval.sh <worktree dir with MUTATION.diff + demo.py> <PROP> [tier] [more props...]
+# usage: tools/seed_eval.sh <worktree dir with change + demo.py> <PROP> [tier] [more props...]
 # 1. confirms in the worktree: suite passes with the change, demo fails with / passes without the change
-# 2. applies the change to /repo, runs the quick check(s), and undoes it straight afterwards
+# 2. runs the check(s) against the changed tree: by default a scratch copy of /repo with the change applied
+#    (GOODWE_SRC); with SEED_IN_REPO=1 the change is applied to /repo itself (git apply) and undone straight afterwards
 WT=$1; PROP=$2; TIER=${3:-quick}; shift 3 2>/dev/null
 cd "$WT" || exit 2
 echo "--- suite with change:"; /venv/bin/python -m pytest -q -p no:cacheprovider 2>&1 | tail -1
 run_demo() { if grep -q "def test_" demo.py 2>/dev/null && ! grep -q "__main__" demo.py; then timeout 300 /venv/bin/python -m pytest -q -p no:cacheprovider demo.py >/dev/null 2>&1; else timeout 300 /venv/bin/python demo.py >/dev/null 2>&1; fi; echo $?; }
 echo "--- demo with change (want non-zero): $(run_demo)"
-git diff -- goodwe > /tmp/seed_eval.diff
-git checkout -q -- goodwe; echo "--- demo without change (want 0): $(run_demo)"; git apply /tmp/seed_eval.diff   # (no git stash: the stash is shared between worktrees)
-if [ -n "$(git -C /repo status --porcelain -- goodwe)" ]; then echo "REPO DIRTY - abort"; exit 2; fi
-git -C /repo apply /tmp/seed_eval.diff || { echo "cannot apply"; exit 2; }
-cd /verif
-for P in $PROP "$@"; do
-  MC_EVIDENCE_DIR=/var/tmp/seed_ev MC_REPLAY_DIR=/var/tmp/seed_rp /venv/bin/python -m mc.cli $P --tier $TIER 2>&1 | grep -E "^(VIOLATION|  key=|C[0-9]+ tier|HARNESS)" | grep -v KNOWN | head -6 | cut -c1-230
-done
-git -C /repo checkout -- . ; rm -rf /var/tmp/seed_ev /var/tmp/seed_rp
-echo "--- repo restored: $(git -C /repo status --porcelain | wc -l) dirty files"
+git diff -- goodwe > /tmp/seed_eval.$$.diff
+git checkout -q -- goodwe; echo "--- demo without change (want 0): $(run_demo)"; git apply /tmp/seed_eval.$$.diff   # (no git stash: the stash is shared between worktrees)
+cmp -s /tmp/seed_eval.$$.diff MUTATION.diff || echo "--- note: worktree diff differs from MUTATION.diff"
+/verif/tools/seed_run.sh /tmp/seed_eval.$$.diff $PROP $TIER "$@"
+rm -f /tmp/seed_eval.$$.diff
